@@ -80,6 +80,9 @@ Definition is_ret {X} (o : outcome X) : bool :=
 Lemma bind_ret_l {X Y} (x : X) (f : X -> outcome Y) : bind (Ret x) f = f x.
 Proof. reflexivity. Qed.
 
+Lemma bind_ret_r {X} (o : outcome X) : bind o (fun x => Ret x) = o.
+Proof. destruct o; reflexivity. Qed.
+
 Lemma bind_ret_inv {X Y} (o : outcome X) (f : X -> outcome Y) (y : Y) :
   bind o f = Ret y -> exists x, o = Ret x /\ f x = Ret y.
 Proof. destruct o; simpl; intros H; try discriminate. eauto. Qed.
